@@ -5,7 +5,8 @@ engine replays them on prolly.MutableMap / prolly.Map under several bindings (fi
 LEVEL = "model_checking"
 
 BINDINGS_Q = [{"filler": 0, "paysz": 0}, {"filler": 40, "paysz": 30}, {"filler": 700, "paysz": 200},
-              {"filler": 900, "paysz": 100, "noabove": True}, {"filler": 500, "paysz": 60, "noabove": True, "alignlast": True, "lastgap": 5}]
+              {"filler": 900, "paysz": 100, "noabove": True}, {"filler": 500, "paysz": 60, "noabove": True, "alignlast": True, "lastgap": 5},
+              {"filler": 400, "paysz": 40, "keypad": 900}]
 BINDINGS_T = BINDINGS_Q + [{"filler": 6000, "paysz": 60}, {"filler": 150, "paysz": 3000}]
 
 
